@@ -1,7 +1,8 @@
 """C18: PrattParser honours declared precedence and associativity.
 
-All operator tables (<= 2 infix with both associativities, optional prefix and postfix, precedences
-from {1,2,3}) x all well-formed token streams up to N tokens.  Two oracles:
+All operator tables of three families (up to 2 infix with both associativities, up to 2 prefix and up to 2
+postfix operators; precedences with repetition from {1,2,3} or all distinct) x all well-formed token
+streams up to N tokens.  Two oracles:
  (1) an independent transcription of pest's PrattParser binding-power algorithm (nud/led/lbp);
  (2) brute force, independent of any parsing algorithm: all trees over the stream that satisfy the
      statement's local constraints; where exactly one survives it must be the implementation's.
@@ -18,12 +19,30 @@ BOUNDS = {"quick": 6, "thorough": 8}
 
 # ----------------------------------------------------------------------------- space
 
+PRE, POST, INF = "pP", "qQ", "ij"
+
+
+def norm_table(t):
+    """Tables as dicts tok -> precedence; a bare int/None (older witnesses) means the single operator p / q."""
+    def side(v, tok):
+        if v is None:
+            return {}
+        if isinstance(v, dict):
+            return dict(v)
+        return {tok: v}
+    return {"infix": {k: tuple(v) for k, v in t["infix"].items()}, "prefix": side(t["prefix"], "p"), "postfix": side(t["postfix"], "q")}
+
+
 def tables():
+    """Family A: precedences from {1,2,3} with repetition, 0-2 infix, 0-1 prefix, 0-1 postfix operators.
+    Family B: 0-2 operators of every kind, all precedences distinct (every bijection onto 1..k).
+    Family C: two prefix and/or two postfix operators with precedences from {1,2,3} (with repetition), 0-1 infix."""
     out = []
     infix_cfgs = [()]
     for p in (1, 2, 3):
         for a in ("L", "R"):
             infix_cfgs.append((("i", p, a),))
+    single = list(infix_cfgs)
     for p1 in (1, 2, 3):
         for a1 in ("L", "R"):
             for p2 in (1, 2, 3):
@@ -32,21 +51,49 @@ def tables():
     for inf in infix_cfgs:
         for pre in (None, 1, 2, 3):
             for post in (None, 1, 2, 3):
-                out.append({"infix": {n: (p, a) for n, p, a in inf}, "prefix": pre, "postfix": post})
+                out.append(norm_table({"infix": {n: (p, a) for n, p, a in inf}, "prefix": pre, "postfix": post}))
+    seen = {repr(t) for t in out}
+
+    def add(t):
+        if repr(t) not in seen:
+            seen.add(repr(t))
+            out.append(t)
+    # B
+    for npre in range(3):
+        for npost in range(3):
+            for ninf in range(3):
+                ops = list(PRE[:npre]) + list(POST[:npost]) + list(INF[:ninf])
+                for perm in itertools.permutations(range(1, len(ops) + 1)):
+                    prec = dict(zip(ops, perm))
+                    for assoc in itertools.product("LR", repeat=ninf):
+                        add({"infix": {o: (prec[o], assoc[k]) for k, o in enumerate(INF[:ninf])},
+                             "prefix": {o: prec[o] for o in PRE[:npre]}, "postfix": {o: prec[o] for o in POST[:npost]}})
+    # C
+    two = [dict(zip("ab", pq)) for pq in itertools.product((1, 2, 3), repeat=2)]
+    for inf in single:
+        for pre in [None] + [1, 2, 3] + two:
+            for post in [None] + [1, 2, 3] + two:
+                if not isinstance(pre, dict) and not isinstance(post, dict):
+                    continue
+                pr = {"p": pre["a"], "P": pre["b"]} if isinstance(pre, dict) else pre
+                po = {"q": post["a"], "Q": post["b"]} if isinstance(post, dict) else post
+                add(norm_table({"infix": {n: (p, a) for n, p, a in inf}, "prefix": pr, "postfix": po}))
     return out
 
 
 def streams(table, n):
     """All well-formed streams (lists of token kinds) with at most n tokens."""
-    pre = ["p"] if table["prefix"] is not None else []
-    post = ["q"] if table["postfix"] is not None else []
+    pre = sorted(table["prefix"])
+    post = sorted(table["postfix"])
     inf = sorted(table["infix"])
     operands = []
     for a in range(0, n):
         for b in range(0, n - a):
             if (a and not pre) or (b and not post):
                 continue
-            operands.append(["p"] * a + ["x"] + ["q"] * b)
+            for ps in itertools.product(pre, repeat=a):
+                for qs in itertools.product(post, repeat=b):
+                    operands.append(list(ps) + ["x"] + list(qs))
     out = []
 
     def extend(cur):
@@ -67,29 +114,22 @@ def pest_pratt(table, toks):
     """Transcription of pest::pratt_parser (nud / led / lbp) on precedences as declared."""
     pos = [0]
 
-    def prec_of(t):
-        if t in table["infix"]:
-            return table["infix"][t][0]
-        if t == "p":
-            return table["prefix"]
-        if t == "q":
-            return table["postfix"]
-        return None
-
     def lbp():
         if pos[0] >= len(toks):
             return 0
         t = toks[pos[0]]
-        if t == "x" or t == "p":
-            raise ValueError("expected operator")
-        return prec_of(t)
+        if t in table["infix"]:
+            return table["infix"][t][0]
+        if t in table["postfix"]:
+            return table["postfix"][t]
+        raise ValueError("expected operator")
 
     def nud():
         t = toks[pos[0]]
         pos[0] += 1
-        if t == "p":
-            rhs = expr(table["prefix"] - 1)
-            return ("pre", rhs)
+        if t in table["prefix"]:
+            rhs = expr(table["prefix"][t] - 1)
+            return (t, rhs)
         if t == "x":
             return "x"
         raise ValueError("expected prefix or primary")
@@ -101,8 +141,8 @@ def pest_pratt(table, toks):
             p, a = table["infix"][t]
             rhs = expr(p if a == "L" else p - 1)
             return (t, lhs, rhs)
-        if t == "q":
-            return ("post", lhs)
+        if t in table["postfix"]:
+            return (t, lhs)
         raise ValueError("expected infix or postfix")
 
     def expr(rbp):
@@ -118,7 +158,7 @@ def pest_pratt(table, toks):
 # ----------------------------------------------------------------------------- oracle 2: brute force over trees
 
 def all_trees(toks):
-    """All trees whose in-order traversal is toks."""
+    """All trees whose in-order traversal is toks.  Nodes: "x", (prefix tok, t), (postfix tok, t), (infix tok, l, r)."""
     n = len(toks)
     memo: dict = {}
 
@@ -129,12 +169,12 @@ def all_trees(toks):
         if j - i == 1 and toks[i] == "x":
             res.append("x")
         if j - i >= 2:
-            if toks[i] == "p":
-                res.extend(("pre", t) for t in build(i + 1, j))
-            if toks[j - 1] == "q":
-                res.extend(("post", t) for t in build(i, j - 1))
+            if toks[i] in PRE:
+                res.extend((toks[i], t) for t in build(i + 1, j))
+            if toks[j - 1] in POST:
+                res.extend((toks[j - 1], t) for t in build(i, j - 1))
             for k in range(i + 1, j - 1):
-                if toks[k] in ("i", "j"):
+                if toks[k] in INF:
                     for lt in build(i, k):
                         for rt in build(k + 1, j):
                             res.append((toks[k], lt, rt))
@@ -148,10 +188,10 @@ def kind_prec(table, t):
     """(kind, precedence, assoc) of a tree node, or None for a primary."""
     if t == "x":
         return None
-    if t[0] == "pre":
-        return ("pre", table["prefix"], None)
-    if t[0] == "post":
-        return ("post", table["postfix"], None)
+    if t[0] in PRE:
+        return ("pre", table["prefix"][t[0]], None)
+    if t[0] in POST:
+        return ("post", table["postfix"][t[0]], None)
     p, a = table["infix"][t[0]]
     return ("in", p, a)
 
@@ -189,52 +229,50 @@ def satisfies(table, t):
 
 
 def distinct_precedences(table):
-    ps = [p for p, _ in table["infix"].values()]
-    if table["prefix"] is not None:
-        ps.append(table["prefix"])
-    if table["postfix"] is not None:
-        ps.append(table["postfix"])
+    ps = [p for p, _ in table["infix"].values()] + list(table["prefix"].values()) + list(table["postfix"].values())
     return len(set(ps)) == len(ps)
 
 
 def weak_prefix_in_right_operand(table, toks):
-    """A prefix operator that follows an infix operator of higher precedence: the statement does not settle it."""
-    if table["prefix"] is None:
-        return False
+    """A prefix operator that follows an infix or prefix operator of higher precedence: the statement does not settle it."""
     for a, b in zip(toks, toks[1:]):
-        if a in table["infix"] and b == "p" and table["infix"][a][0] > table["prefix"]:
-            return True
+        if b in table["prefix"]:
+            pa = table["infix"][a][0] if a in table["infix"] else table["prefix"].get(a)
+            if pa is not None and pa > table["prefix"][b]:
+                return True
     return False
 
 
 # ----------------------------------------------------------------------------- implementation under test
+
+NAMES = {"x": "num", "p": "neg", "P": "lnot", "q": "fac", "Q": "qm", "i": "add", "j": "mul"}
+REV = {v: k for k, v in NAMES.items()}
+
 
 def run_impl(table, toks):
     from pest.pairs import Pair, Pairs
     from pest.pratt import PrattParser
     from pest.state import RuleFrame
 
-    names = {"x": "num", "p": "neg", "q": "fac", "i": "add", "j": "mul"}
-    rev = {v: k for k, v in names.items()}
     text = "".join(toks)
-    pairs = [Pair(text, k, k + 1, RuleFrame(names[t], 0)) for k, t in enumerate(toks)]
+    pairs = [Pair(text, k, k + 1, RuleFrame(NAMES[t], 0)) for k, t in enumerate(toks)]
 
     class T(PrattParser):
-        PREFIX_OPS = {"neg": table["prefix"]} if table["prefix"] is not None else {}
-        POSTFIX_OPS = {"fac": table["postfix"]} if table["postfix"] is not None else {}
-        INFIX_OPS = {names[n]: (p, a == "R") for n, (p, a) in table["infix"].items()}
+        PREFIX_OPS = {NAMES[t]: p for t, p in table["prefix"].items()}
+        POSTFIX_OPS = {NAMES[t]: p for t, p in table["postfix"].items()}
+        INFIX_OPS = {NAMES[n]: (p, a == "R") for n, (p, a) in table["infix"].items()}
 
         def parse_primary(self, pair):
             return "x"
 
         def parse_prefix(self, op, rhs):
-            return ("pre", rhs)
+            return (REV[op.name], rhs)
 
         def parse_postfix(self, lhs, op):
-            return ("post", lhs)
+            return (REV[op.name], lhs)
 
         def parse_infix(self, lhs, op, rhs):
-            return (rev[op.name], lhs, rhs)
+            return (REV[op.name], lhs, rhs)
 
     stream = Pairs(pairs).stream()
     tree = T().parse_expr(stream)
@@ -245,10 +283,10 @@ def run_impl(table, toks):
 def show(t):
     if t == "x":
         return "x"
-    if t[0] == "pre":
-        return "-(" + show(t[1]) + ")"
-    if t[0] == "post":
-        return "(" + show(t[1]) + ")!"
+    if t[0] in PRE:
+        return t[0] + "(" + show(t[1]) + ")"
+    if t[0] in POST:
+        return "(" + show(t[1]) + ")" + t[0]
     return "(" + show(t[1]) + " " + t[0] + " " + show(t[2]) + ")"
 
 
@@ -326,11 +364,13 @@ def run(tier: str) -> int:
         "traces_validated_against_impl": agg["evaluations"],
         "evaluations": agg["evaluations"],
         "distinct_nontrivial": agg["nontrivial"],
-        "rule": "every operator table with 0-2 infix operators (precedence 1-3, left/right), an optional prefix and an optional postfix operator (precedence 1-3) x every well-formed stream "
+        "rule": "every operator table of three families - A: 0-2 infix operators (precedence 1-3 with repetition, left/right), an optional prefix and an optional postfix operator (precedence 1-3); "
+                "B: 0-2 prefix, 0-2 postfix and 0-2 infix operators with all precedences distinct (every bijection onto 1..k, every associativity); C: two prefix and/or two postfix operators with precedences 1-3 with repetition and 0-1 infix - x every well-formed stream "
                 "(prefix* primary postfix*)(infix prefix* primary postfix*)* of at most N tokens built from hand-made Pair objects; the tree built by a PrattParser subclass with tuple-building hooks is compared with "
                 "(1) an independent transcription of pest's nud/led/lbp binding-power algorithm and the whole stream must be consumed; (2) where all precedences are distinct and no weak prefix follows a stronger infix, "
                 "the unique tree satisfying the statement's local constraints (found by brute force over all trees) - oracle (1) and (2) are also compared with each other (self-check). non-trivial = streams of >= 3 tokens",
-        "samples": [{"table": {"infix": {"i": [1, "L"], "j": [2, "R"]}, "prefix": 3, "postfix": None}, "stream": "pxixjx"}],
+        "samples": [{"table": {"infix": {"i": [1, "L"], "j": [2, "R"]}, "prefix": {"p": 3}, "postfix": {}}, "stream": "pxixjx"},
+                    {"table": {"infix": {"i": [2, "L"]}, "prefix": {"p": 1, "P": 3}, "postfix": {}}, "stream": "pPxix"}],
         "exhaustive": True,
         "tables": len(tabs),
         "max_tokens": n,
@@ -343,7 +383,7 @@ def run(tier: str) -> int:
 
 
 def replay_case(case: dict, quiet: bool = False) -> bool:
-    table = {"infix": {k: tuple(v) for k, v in case["table"]["infix"].items()}, "prefix": case["table"]["prefix"], "postfix": case["table"]["postfix"]}
+    table = norm_table(case["table"])
     f, _ = judge(table, list(case["stream"]))
     if not quiet:
         print("  ", f)
